@@ -308,7 +308,8 @@ namespace CDNS {
                                           m_decoder(input),
                                           m_blocks_count(0),
                                           m_blocks_read(0),
-                                          m_indef_blocks(false) { read_file_header(); }
+                                          m_indef_blocks(false),
+                                          m_indef_file(false) { read_file_header(); }
 
         /**
          * @brief Read whole C-DNS Block from input stream
@@ -331,5 +332,6 @@ namespace CDNS {
         uint64_t m_blocks_count;
         uint64_t m_blocks_read;
         bool m_indef_blocks;
+        bool m_indef_file;
     };
 }
